@@ -57,9 +57,17 @@ class SymmetryDriver:
     def cleanup(self):
         pass
 
-    def observe(self, src, dst):
+    def observe(self, src, dst, reuse=False):
         self.traced += 1
-        tr = self.cls(np.array(src, dtype=float), np.array(dst, dtype=float), self.ice)
+        if reuse and getattr(self, 'tracer', None) is not None:
+            # the same tracer object, endpoints re-assigned (lazy state must not survive)
+            tr = self.tracer
+            tr.from_point = np.array(src, dtype=float)
+            tr.to_point = np.array(dst, dtype=float)
+        else:
+            tr = self.cls(np.array(src, dtype=float), np.array(dst, dtype=float), self.ice)
+            if reuse:
+                self.tracer = tr
         try:
             ex = bool(tr.exists)
             sols = list(tr.solutions)
@@ -80,11 +88,23 @@ class SymmetryDriver:
         return out
 
     def reset(self, st):
+        self.tracer = None
         self.base = self.observe(st['src'], st['dst'])
+        self.observe(st['src'], st['dst'], reuse=True)
 
     def step(self, label, st):
-        cur = self.observe(st['src'], st['dst'])
-        where = '%s after %s (swapped=%s, turns=%d) at %s -> %s' % (self.kind, st['last']['op'], st['swapped'], st['turns'],
+        self.compare(st, self.observe(st['src'], st['dst']), 'fresh tracer')
+        try:
+            reused = self.observe(st['src'], st['dst'], reuse=True)
+        except Exception as ex:
+            from vlib.core import Known as _K
+            if isinstance(ex, _K):
+                raise
+            raise
+        self.compare(st, reused, 're-used tracer object')
+
+    def compare(self, st, cur, how):
+        where = '%s [%s] after %s (swapped=%s, turns=%d) at %s -> %s' % (self.kind, how, st['last']['op'], st['swapped'], st['turns'],
                                                                     list(st['src']), list(st['dst']))
         if len(cur) != len(self.base):
             raise Divergence(where + ': number of solutions', len(self.base), len(cur))
